@@ -234,5 +234,6 @@ class RSAKey(PKey):
                 raise SSHException(str(exc))
         else:
             self._got_bad_key_format_id(pkformat)
-        assert isinstance(key, rsa.RSAPrivateKey)
+        if not isinstance(key, rsa.RSAPrivateKey):
+            raise SSHException("not an RSA private key")
         self.key = key
